@@ -59,16 +59,19 @@ struct Plan {
 
 fn make_plan(seed: u64, force_limit: Option<u64>) -> Plan {
     let mut r = Rng::new(seed ^ 0xC10);
-    let l = r.range(3, 5);
+    // seeds ending in 777: a LONG chain (epochs of about 90 blocks, tip near 300): the frozen range and the blocks above it
+    // straddle number 256, where the byte order of the store's little-endian number-prefixed keys stops being numeric order
+    let long = seed % 1000 == 777;
+    let l = if long { r.range(86, 96) } else { r.range(3, 5) };
     let passes = r.range(2, 3) as usize;
     // now and then the first pass finds the chain too short (epoch 2): it must idle
-    let mut tips = vec![if r.chance(1, 6) { 2 * l + r.below(l) } else { 3 * l + r.below(l) }];
+    let mut tips = vec![if long { 3 * l + 12 + r.below(30) } else if r.chance(1, 6) { 2 * l + r.below(l) } else { 3 * l + r.below(l) }];
     for _ in 1..passes {
         let t = *tips.last().unwrap();
         tips.push(t + r.below(l + 2));
     }
     let max_tip = *tips.last().unwrap();
-    let limit = force_limit.unwrap_or_else(|| if r.chance(1, 3) { 30_000 } else { r.range(2, 3) });
+    let limit = force_limit.unwrap_or_else(|| if long || r.chance(1, 3) { 30_000 } else { r.range(2, 3) });
     let testnet = r.chance(1, 2);
     let noext: Vec<u64> = if testnet { (1..=max_tip).filter(|_| r.chance(1, 2)).collect() } else { vec![] };
     // side blocks: mostly at heights that become frozen
